@@ -3,6 +3,7 @@
 
     authors: Gabrielle Angeloro, Michael Catanzaro
 """
+import numbers
 from abc import ABC, abstractmethod
 import numpy as np
 
@@ -65,7 +66,7 @@ class PersLandscape(ABC):
 
     @abstractmethod
     def __mul__(self, other):
-        if not isinstance(other, (int, float)):
+        if not isinstance(other, numbers.Real):
             raise TypeError(
                 "Can only multiply persistence landscapes" "by real numbers"
             )
